@@ -51,6 +51,10 @@ CLAIMED = {
     "C15": ("bounded symbolic model checking of resp3To2 on reply trees of every RESP3 kind (depth <= 1 quick / 2 thorough, symbolic leaves) against the canonical "
             "down-conversion, RESP2-only output types and one-frame serialisation; HELLO for all int64 protocol versions incl. frame condition on a second connection; "
             "30 commands of every reply shape executed on identical data under RESP2 and RESP3 with reply2 = downconvert(reply3)", "5/C15"),
+    "C17": ("inductive argument, each lemma decided on the real code: hashToIndex(h,2n)>>1 == hashToIndex(h,n) for every 64-bit hash and n = 16..256 (growth splits bucket i "
+            "into 2i,2i+1); one call of dictScanUnlocked on tables of 16 and 32 buckets (occupancy patterns, tracked bucket, every start position, arbitrary cursor bits above "
+            "the mask, COUNT 1..3): progress, nothing between old and new position skipped, nothing invented, and the returned cursor decodes to 2x / half the position after "
+            "doubling / halving; bounded end-to-end SCAN and SSCAN iterations (18-20 names, table growth from 16 to 32 buckets or shrink between two calls)", "5/C17"),
     "C18": ("bounded symbolic model checking: the real bit kernels (extractBitfield, setBitfield, signExtend, signed/unsigned overflow) over a 10-byte "
             "symbolic array / all int64 values and all offsets and widths against a big-endian bit-vector reference and Redis' overflow functions; "
             "BITFIELD GET/SET/INCRBY through the real dispatcher (type table, bit and #-offsets, every OVERFLOW mode, symbolic stored bytes and value) against "
